@@ -55,6 +55,12 @@ def Cont.select (c : Cont) (ix : Index) (dim : Nat) : Option Cont :=
   | .mnt m => (m.select ix dim).map .mnt
   | .met m => (m.select ix dim).map .met
 
+/-- does the literally transcribed implementation path give the same result? -/
+def Cont.implAgrees (c : Cont) (ix : Index) (dim : Nat) : Bool :=
+  match c with
+  | .mnt m => m.select ix dim == m.selectImpl ix dim
+  | .met _ => true
+
 def Cont.getValue (c : Cont) (i j : Int) : Option (List V) :=
   match c with
   | .mnt m => m.getValue i j
@@ -81,16 +87,20 @@ def runOps (c : Cont) (ops : List Json) : Except String (List Json × Option Con
     | some c =>
       match (← getStr op "op") with
       | "sel" =>
-        let r := c.select (← parseIndex (← op.getObjVal? "ix")) (← getNat op "dim")
+        let ix ← parseIndex (← op.getObjVal? "ix")
+        let dim ← getNat op "dim"
+        let r := c.select ix dim
         let r := r.bind fun c' => if c'.valid then some c' else none
-        outs := outs ++ [outCont r]
+        outs := outs ++ [if c.implAgrees ix dim then outCont r else Json.str "impl-mismatch"]
         cur := r
       | "sel2" =>
         let ix0 ← parseIndex (← op.getObjVal? "ix0")
         let ix1 ← parseIndex (← op.getObjVal? "ix1")
-        let r := (c.select ix0 0).bind fun c' => if c'.valid then c'.select ix1 1 else none
+        let r1 := (c.select ix0 0).bind fun c' => if c'.valid then some c' else none
+        let r := r1.bind fun c' => c'.select ix1 1
         let r := r.bind fun c' => if c'.valid then some c' else none
-        outs := outs ++ [outCont r]
+        let agree := c.implAgrees ix0 0 && (match r1 with | some c' => c'.implAgrees ix1 1 | none => true)
+        outs := outs ++ [if agree then outCont r else Json.str "impl-mismatch"]
         cur := r
       | "val" =>
         let r := c.getValue (← getInt op "i") (← getInt op "j")
@@ -106,7 +116,7 @@ def partOf (kind : String) (j : Json) : Except String (Option Cont) := do
   pure cur
 
 def handle (j : Json) : Except String Json := do
-  let kind ← getStr j "kind"
+  let kind := (getStr j "kind").toOption.getD "mnt"
   match (← getStr j "cmd") with
   | "prog" =>
     let base ← parseCont kind (← j.getObjVal? "base")
@@ -147,6 +157,11 @@ def handle (j : Json) : Except String Json := do
     | some (.mnt m) => pure (okJ (jMNT (m.fillnaCol (· == missing) col fill)))
     | some (.met m) => pure (okJ (jMET (m.fillnaCol (· == missing) col fill)))
     | none => pure (Json.str "part-raises")
+  | "ba" =>
+    let count ← natList (← j.getObjVal? "count")
+    let a := batchedArange count
+    let b := batchedArangeImpl count
+    pure (Json.mkObj [("agree", a == b), ("batch", jNats (a.map (·.1))), ("arange", jNats (a.map (·.2)))])
   | c => err s!"cmd {c}"
 
 def main : IO Unit := serve handle
